@@ -1041,7 +1041,7 @@ impl Area for RouterArea {
     }
     fn cases(&self, thorough: bool) -> u64 {
         if thorough {
-            120_000
+            70_000
         } else {
             2_400
         }
@@ -1140,6 +1140,16 @@ impl Area for RouterArea {
         }
     }
     fn run_impl(&self, ops: &[String]) -> ImplRun {
+        self.run_causal(ops)
+    }
+    fn classify_mismatch(&self, ops: &[String], impl_out: &[String], model_out: &[String]) -> String {
+        self.classify_mismatch_impl(ops, impl_out, model_out)
+    }
+}
+
+impl RouterArea {
+    /// one pass over the ops on the real router with all oracles (surface classes)
+    fn run_core(&self, ops: &[String]) -> ImplRun {
         let mut r = ImplRun::default();
         let mut router = Router::new();
         let mut s: Vec<Fe> = vec![]; // configured set (spec semantics)
@@ -1318,7 +1328,63 @@ impl Area for RouterArea {
         r.nontrivial = tree_routed && max_cfg >= 2;
         r
     }
-    fn classify_mismatch(&self, _ops: &[String], impl_out: &[String], model_out: &[String]) -> String {
+}
+
+const REGEX_CLASSES: &[&str] = &["regex-host-leaf-shared-with-literal-host", "regex-segment-no-backtrack"];
+
+/// the add/rem op names a tree frontend whose hostname has a regex segment
+/// (`only_mid`: a regex segment that is not the leftmost one)
+fn is_tree_regex_op(line: &str, only_mid: bool) -> bool {
+    match parse_op(line) {
+        Op::Add(f) | Op::Rem(f) => f.pos == 2 && has_re_seg(&f.host) && (!only_mid || mid_regex(&f.host)),
+        _ => false,
+    }
+}
+
+impl RouterArea {
+    /// Causal classification: a failure class produced by the surface
+    /// classifier stands only if it survives the removal of every
+    /// regex-segment tree host from the history. If it disappears without the
+    /// mid-regex hosts the root cause is `regex-segment-no-backtrack`, if it
+    /// disappears without all regex-segment hosts it is
+    /// `regex-host-leaf-shared-with-literal-host`.
+    fn run_causal(&self, ops: &[String]) -> ImplRun {
+        let mut r = self.run_core(ops);
+        let suspicious = |c: &str| !REGEX_CLASSES.contains(&c) && c != "nonmatching-frontend-changes-host-group";
+        if !r.oracle.iter().any(|(c, _)| suspicious(c)) || !ops.iter().any(|l| is_tree_regex_op(l, false)) {
+            return r;
+        }
+        let without = |only_mid: bool| -> BTreeSet<String> {
+            let filtered: Vec<String> = ops.iter().filter(|l| !is_tree_regex_op(l, only_mid)).cloned().collect();
+            self.run_core(&filtered).oracle.into_iter().map(|(c, _)| c).collect()
+        };
+        let has_mid = ops.iter().any(|l| is_tree_regex_op(l, true));
+        let no_mid = if has_mid { Some(without(true)) } else { None };
+        let no_re = without(false);
+        let mut out: Vec<(String, String)> = vec![];
+        for (c, d) in r.oracle.drain(..) {
+            let nc = if !suspicious(&c) {
+                c
+            } else if no_mid.as_ref().map(|s| !s.contains(&c)).unwrap_or(false) {
+                r.tags.push(format!("causal:{c}->regex-segment-no-backtrack"));
+                "regex-segment-no-backtrack".to_string()
+            } else if !no_re.contains(&c) {
+                r.tags.push(format!("causal:{c}->regex-host-leaf-shared-with-literal-host"));
+                "regex-host-leaf-shared-with-literal-host".to_string()
+            } else {
+                c
+            };
+            if !out.iter().any(|(x, _)| *x == nc) {
+                out.push((nc, d));
+            }
+        }
+        r.oracle = out;
+        r
+    }
+}
+
+impl RouterArea {
+    fn classify_mismatch_impl(&self, _ops: &[String], impl_out: &[String], model_out: &[String]) -> String {
         // distinguish "model result differs" from "Lean spec differs from the Rust spec"
         for (a, b) in impl_out.iter().zip(model_out.iter()) {
             if a != b {
